@@ -15,6 +15,6 @@ ids=[prop]
 print(" ".join(ids))
 PY
 )
-  OUT=$(LINES_MAX=400 tools/mutest.sh seeded/$S/patch.diff $CHECKS 2>&1 | grep "^SUMMARY" | sed "s/.*violations=\([0-9]*\).*exit=\([0-9]*\).*/violations=\1 exit=\2/" | tr "\n" " ")
+  OUT=$(LINES_MAX=100000 tools/mutest.sh seeded/$S/patch.diff $CHECKS 2>&1 | grep "^SUMMARY" | sed "s/.*violations=\([0-9]*\).*exit=\([0-9]*\).*/violations=\1 exit=\2/" | tr "\n" " ")
   case "$OUT" in *"exit=1"*) echo "CAUGHT $S [$CHECKS] $OUT";; *) echo "MISSED $S [$CHECKS] $OUT";; esac
 '
